@@ -3,6 +3,7 @@ package main
 import (
 	"bytes"
 	"fmt"
+	"math"
 
 	"github.com/kstenerud/go-concise-encoding/cbe"
 	"github.com/kstenerud/go-concise-encoding/ce/events"
@@ -143,4 +144,94 @@ func hasInexactBigFloat(evs []Event) bool {
 		}
 	}
 	return false
+}
+
+// ---------------------------------------------------------------------------------------
+// C22: CBE encoding is minimal and canonical.
+
+func init() {
+	runners["C22"] = runC22
+}
+
+func encodeOne(e Event, cfg *configuration.Configuration) ([]byte, error) {
+	return cbeEncode([]Event{e}, cfg)
+}
+
+func runC22(r *Run) {
+	cfg := configuration.New()
+	r.each(func(idx int, rng *Rng) {
+		g := NewGen(rng, GenCfg{NoCustomText: true})
+		id := fmt.Sprintf("%d", idx)
+		switch idx % 3 {
+		case 0, 1:
+			// single values: integers in every form, floats, arrays and strings around the short-form limit
+			var evs []Event
+			switch rng.Intn(5) {
+			case 0, 1:
+				g.integer()
+				evs = g.out
+			case 2:
+				g.emit(Event{K: "fl", F: math.Float64frombits(g.floatBits())})
+				evs = g.out
+			case 3:
+				n := []int{0, 1, 14, 15, 16, 17, 63, 64, 127, 128, 300}[rng.Intn(11)]
+				t := []events.ArrayType{events.ArrayTypeString, events.ArrayTypeResourceID, events.ArrayTypeReferenceRemote}[rng.Intn(3)]
+				if t != events.ArrayTypeString && n == 0 {
+					n = 1
+				}
+				txt := g.text(n)
+				if rng.P(1, 2) {
+					evs = []Event{{K: "s", AT: t, D: txt}}
+				} else {
+					evs = []Event{{K: "a", AT: t, N: uint64(len(txt)), D: txt}}
+				}
+			default:
+				t := numericArrayTypes[rng.Intn(len(numericArrayTypes))]
+				n := []int{0, 1, 14, 15, 16, 17, 64, 130}[rng.Intn(8)]
+				var data []byte
+				if t == events.ArrayTypeBit {
+					data = rng.Bytes((n + 7) / 8)
+					if n%8 != 0 {
+						data[len(data)-1] &= byte(1<<uint(n%8)) - 1
+					}
+				} else {
+					data = rng.Bytes(n * t.ElementSize() / 8)
+				}
+				evs = []Event{{K: "a", AT: t, N: uint64(n), D: data}}
+			}
+			e := evs[len(evs)-1]
+			text := e.Text()
+			r.out.Case(text, true)
+			r.out.Count("single:" + e.K)
+			r.out.Sample(text)
+			doc, err := encodeOne(e, cfg)
+			if err != nil {
+				r.out.Finding("C22", "encode-error", "encoder fails on a single value: "+err.Error(), text)
+				return
+			}
+			r.out.Line("corr", id, "CBE.ENC", []string{text}, "OK "+hx(doc))
+			// independent size oracle: no encoding the format offers is shorter
+			r.out.Line("prop", id, "CBE.MINLEN", []string{text}, fmt.Sprintf("%d", len(doc)))
+		default:
+			// idempotence: decode(encode(evs)) encoded again is byte-identical
+			g2 := NewGen(rng, cbeGenCfg(r.Tier))
+			evs := g2.Doc()
+			text := EventsText(evs)
+			r.out.Case(text, len(evs) > 4)
+			r.out.Count("stream")
+			doc, err := cbeEncode(evs, cfg)
+			if err != nil {
+				return
+			}
+			back, derr := cbeDecode(doc, cfg, true)
+			if derr != nil {
+				return // C01's business
+			}
+			doc2, err2 := cbeEncode(back, cfg)
+			if err2 != nil || !bytes.Equal(doc, doc2) {
+				r.out.Finding("C22", "reencode-differs", fmt.Sprintf("decoding an encoder-produced document and encoding it again does not reproduce it: %s vs %s", hx(doc), hx(doc2)), text)
+			}
+			r.out.Line("corr", id, "CBE.ENC", []string{EventsText(back)}, "OK "+hx(doc2))
+		}
+	})
 }
